@@ -216,13 +216,13 @@ func (runInfo *runInfoStruct) callExpr() {
 	// useCallSlice lets us know to use CallSlice instead of Call because of the format of the args
 	if useCallSlice {
 		if callExpr.Go {
-			go f.CallSlice(args)
+			runInfo.goRun(func() { f.CallSlice(args) })
 			return
 		}
 		rvs = f.CallSlice(args)
 	} else {
 		if callExpr.Go {
-			go f.Call(args)
+			runInfo.goRun(func() { f.Call(args) })
 			return
 		}
 		rvs = f.Call(args)
@@ -302,15 +302,20 @@ func (runInfo *runInfoStruct) callVMFunctionDirect(f reflect.Value, callExpr *as
 	if callExpr.Go {
 		switch {
 		case fn0 != nil:
-			go fn0(runInfo.ctx)
+			ctx := runInfo.ctx
+			runInfo.goRun(func() { fn0(ctx) })
 		case fn1 != nil:
-			go fn1(runInfo.ctx, args[0])
+			ctx, a0 := runInfo.ctx, args[0]
+			runInfo.goRun(func() { fn1(ctx, a0) })
 		case fn2 != nil:
-			go fn2(runInfo.ctx, args[0], args[1])
+			ctx, a0, a1 := runInfo.ctx, args[0], args[1]
+			runInfo.goRun(func() { fn2(ctx, a0, a1) })
 		case fn3 != nil:
-			go fn3(runInfo.ctx, args[0], args[1], args[2])
+			ctx, a0, a1, a2 := runInfo.ctx, args[0], args[1], args[2]
+			runInfo.goRun(func() { fn3(ctx, a0, a1, a2) })
 		case fn4 != nil:
-			go fn4(runInfo.ctx, args[0], args[1], args[2], args[3])
+			ctx, a0, a1, a2, a3 := runInfo.ctx, args[0], args[1], args[2], args[3]
+			runInfo.goRun(func() { fn4(ctx, a0, a1, a2, a3) })
 		}
 		return true
 	}
@@ -341,6 +346,20 @@ func (runInfo *runInfoStruct) callVMFunctionDirect(f reflect.Value, callExpr *as
 
 	runInfo.rv = rv
 	return true
+}
+
+// goRun starts f on a new goroutine for a `go` statement. Outside Debug mode a
+// panic of the called function ends that goroutine only: nothing is waiting for
+// its result, and it must not take the host program down.
+func (runInfo *runInfoStruct) goRun(f func()) {
+	if runInfo.options.Debug {
+		go f()
+		return
+	}
+	go func() {
+		defer func() { _ = recover() }()
+		f()
+	}()
 }
 
 // checkIfRunVMFunction checking the number and types of the reflect.Type.
